@@ -63,6 +63,8 @@ def angles(b1, b2, lam, g) -> dict:
         'y_raised': yr,
         'rho': rho,  # projection of the raised beam onto the x-y plane
         'two_theta': hp.angle_between(b1, raised),
+        # NOT documented: the beam moved the other way (b2 - delta e_y); only used to label a mismatch
+        'two_theta_lowered': hp.angle_between(b1, hp.sub(b2, hp.scale(ey, d))),
         'phi': mpmath.atan2(yr, xd),
         'two_theta_inplane': mpmath.atan2(rho, zd),
         'gamma': mpmath.atan2(abs(yr), zd),
